@@ -52,42 +52,42 @@ deriving Repr, DecidableEq
 def sourceOf (q : SelIn) : Source :=
   if hasBraceRef q.itemset then
     let path := splitOnChar '/' q.prevSub
-    .prev (joinWith (S "/") path.dropLast) (path.getLast?.getD [])
+    .prev (joinWith (c!"/") path.dropLast) (path.getLast?.getD [])
   else if isFileExt (splitext q.itemset).2 then .file (splitext q.itemset).1 (splitext q.itemset).2
   else .list q.itemset
 
 def base : Source → Str
-  | .file stem _ => S "instance('" ++ stem ++ S "')/root/item"
-  | .list n => S "instance('" ++ n ++ S "')/root/item"
+  | .file stem _ => c!"instance('" ++ stem ++ c!"')/root/item"
+  | .list n => c!"instance('" ++ n ++ c!"')/root/item"
   | .prev parent _ => parent
 
 def pred (q : SelIn) : Source → Str
   | .prev parent leaf =>
-    if q.filter.isEmpty then S "./" ++ leaf ++ S " != ''"
-    else pyReplace (pyReplace q.filter (S "current()/" ++ parent) (S ".")) parent (S ".")
+    if q.filter.isEmpty then c!"./" ++ leaf ++ c!" != ''"
+    else pyReplace (pyReplace q.filter (c!"current()/" ++ parent) (c!".")) parent (c!".")
   | _ => q.filter
 
 def seedArg (q : SelIn) : Str :=
-  match lookup (S "seed") q.params with
-  | some s => S ", " ++ (if startsWith s (S "${") then q.seedSub else s)
+  match lookup (c!"seed") q.params with
+  | some s => c!", " ++ (if startsWith s (c!"${") then q.seedSub else s)
   | none => []
 
 def nodeset (q : SelIn) : Str :=
   let inner := base (sourceOf q) ++ bracket (pred q (sourceOf q))
-  if lookup (S "randomize") q.params = some (S "true") then S "randomize(" ++ inner ++ seedArg q ++ S ")" else inner
+  if lookup (c!"randomize") q.params = some (c!"true") then c!"randomize(" ++ inner ++ seedArg q ++ c!")" else inner
 
 def valueRef (q : SelIn) : Str :=
   match sourceOf q with
   | .prev _ leaf => leaf
-  | .file _ ext => (lookup (S "value") q.params).getD (if ext = S ".geojson" then gref "value_geojson" else gref "value")
-  | .list _ => (lookup (S "value") q.params).getD (gref "value")
+  | .file _ ext => (lookup (c!"value") q.params).getD (if ext = c!".geojson" then gref "value_geojson" else gref "value")
+  | .list _ => (lookup (c!"value") q.params).getD (gref "value")
 
 /-- `listItext`: the *list* named in the type cell requires itext -/
 def labelRef (q : SelIn) (listItext : Bool) : Str :=
   match sourceOf q with
   | .prev _ leaf => leaf
-  | .file _ ext => (lookup (S "label") q.params).getD (if ext = S ".geojson" then gref "label_geojson" else gref "label")
-  | .list _ => if listItext then S "jr:itext(itextId)" else (lookup (S "label") q.params).getD (gref "label")
+  | .file _ ext => (lookup (c!"label") q.params).getD (if ext = c!".geojson" then gref "label_geojson" else gref "label")
+  | .list _ => if listItext then c!"jr:itext(itextId)" else (lookup (c!"label") q.params).getD (gref "label")
 
 /-! ### external sources -/
 
@@ -131,7 +131,7 @@ structure Fail where
   site : String := ""
 deriving Repr, Inhabited
 
-def showS (s : Str) : Str := S "'" ++ s ++ S "'"
+def showS (s : Str) : Str := c!"'" ++ s ++ c!"'"
 
 def checkLists (inp : Input) (es : List Elem) (obs : ObsIn) : List Fail :=
   let search := searchLists es
@@ -140,25 +140,25 @@ def checkLists (inp : Input) (es : List Elem) (obs : ObsIn) : List Fail :=
     let src := sources es
     if search.contains l then
       (if found.any (fun i => i.src.isNone) then
-        [{ kind := "search-inline", detail := S "list consumed by search() also rendered as instance " ++ showS l,
+        [{ kind := "search-inline", detail := c!"list consumed by search() also rendered as instance " ++ showS l,
            site := "survey._generate_instances" }] else [])
     else if src.any (fun p => p.1 = l) then []   -- id clash with an external source: rejected / decided by external-decl
     else match found with
       | [i] =>
-        (if i.src.isSome then [{ kind := "list-instance", detail := S "instance of list has a src " ++ showS l,
+        (if i.src.isSome then [{ kind := "list-instance", detail := c!"instance of list has a src " ++ showS l,
                                  site := "survey._generate_static_instances" }] else []) ++
         (match i.items with
          | some items => if itemsOk l (choicesOfList inp es l) items then [] else
-             [{ kind := "instance-items", detail := S "items of instance " ++ showS l ++ S " are not the list's choices in sheet order",
+             [{ kind := "instance-items", detail := c!"items of instance " ++ showS l ++ c!" are not the list's choices in sheet order",
                 site := "survey._generate_static_instances" }]
-         | none => [{ kind := "instance-items", detail := S "instance without root " ++ showS l, site := "survey._generate_static_instances" }])
-      | [] => [{ kind := "list-instance", detail := S "no instance for list " ++ showS l, site := "survey._generate_instances" }]
-      | _ => [{ kind := "list-instance", detail := S "more than one instance for list " ++ showS l, site := "survey._generate_instances" }]
+         | none => [{ kind := "instance-items", detail := c!"instance without root " ++ showS l, site := "survey._generate_static_instances" }])
+      | [] => [{ kind := "list-instance", detail := c!"no instance for list " ++ showS l, site := "survey._generate_instances" }]
+      | _ => [{ kind := "list-instance", detail := c!"more than one instance for list " ++ showS l, site := "survey._generate_instances" }]
 
 def checkIds (obs : ObsIn) : List Fail :=
   let ids := obs.instances.map (·.id)
   if ids.all fun i => ids.count i ≤ 1 then [] else
-    [{ kind := "instance-ids", detail := S "instance ids are not unique", site := "survey._generate_instances" }]
+    [{ kind := "instance-ids", detail := c!"instance ids are not unique", site := "survey._generate_instances" }]
 
 def checkSources (inp : Input) (es : List Elem) (obs : ObsIn) : List Fail :=
   let src := sources es
@@ -166,53 +166,53 @@ def checkSources (inp : Input) (es : List Elem) (obs : ObsIn) : List Fail :=
   (src.flatMap fun p =>
     match obs.instances.filter fun i => i.id = p.1 with
     | [i] => if i.src = some p.2 then [] else
-        [{ kind := "external-decl", detail := S "instance " ++ showS p.1 ++ S " does not have the conventional URI " ++ showS p.2,
+        [{ kind := "external-decl", detail := c!"instance " ++ showS p.1 ++ c!" does not have the conventional URI " ++ showS p.2,
            site := "survey._generate_instances" }]
-    | [] => [{ kind := "external-decl", detail := S "external source not declared: " ++ showS p.1, site := "survey._generate_instances" }]
-    | _ => [{ kind := "external-decl", detail := S "external source declared more than once: " ++ showS p.1, site := "survey._generate_instances" }]) ++
+    | [] => [{ kind := "external-decl", detail := c!"external source not declared: " ++ showS p.1, site := "survey._generate_instances" }]
+    | _ => [{ kind := "external-decl", detail := c!"external source declared more than once: " ++ showS p.1, site := "survey._generate_instances" }]) ++
   (obs.instances.flatMap fun i =>
     match i.src with
     | some u => if src.contains (i.id, u) then [] else
-        [{ kind := "external-decl", detail := S "instance not named by the form: " ++ showS i.id, site := "survey._generate_instances" }]
+        [{ kind := "external-decl", detail := c!"instance not named by the form: " ++ showS i.id, site := "survey._generate_instances" }]
     | none => if lists.contains i.id then [] else
-        [{ kind := "list-instance", detail := S "instance for a list that is not on the choices sheet: " ++ showS i.id,
+        [{ kind := "list-instance", detail := c!"instance for a list that is not on the choices sheet: " ++ showS i.id,
            site := "survey._generate_static_instances" }])
 
 def checkSel (m : SelObs) (o : ObsSel) : List Fail :=
-  (if m.ref = o.ref then [] else [{ kind := "select-ref", detail := S "select ref " ++ showS o.ref ++ S " expected " ++ showS m.ref }]) ++
+  (if m.ref = o.ref then [] else [{ kind := "select-ref", detail := c!"select ref " ++ showS o.ref ++ c!" expected " ++ showS m.ref }]) ++
   (match m.qin, o.itemset with
    | some q, some i =>
      (if i.nodeset = nodeset q then [] else
-       [{ kind := "nodeset", detail := S "itemset nodeset of " ++ m.ref ++ S " is " ++ showS i.nodeset ++ S " expected " ++ showS (nodeset q),
+       [{ kind := "nodeset", detail := c!"itemset nodeset of " ++ m.ref ++ c!" is " ++ showS i.nodeset ++ c!" expected " ++ showS (nodeset q),
           site := "question.MultipleChoiceQuestion.build_xml" }]) ++
      (if i.value = valueRef q then [] else
-       [{ kind := "value-ref", detail := S "itemset value ref of " ++ m.ref ++ S " is " ++ showS i.value ++ S " expected " ++ showS (valueRef q),
+       [{ kind := "value-ref", detail := c!"itemset value ref of " ++ m.ref ++ c!" is " ++ showS i.value ++ c!" expected " ++ showS (valueRef q),
           site := "question.MultipleChoiceQuestion.build_xml" }]) ++
      (if i.label = labelRef q m.listItext then [] else
-       [{ kind := "label-ref", detail := S "itemset label ref of " ++ m.ref ++ S " is " ++ showS i.label ++ S " expected " ++ showS (labelRef q m.listItext),
+       [{ kind := "label-ref", detail := c!"itemset label ref of " ++ m.ref ++ c!" is " ++ showS i.label ++ c!" expected " ++ showS (labelRef q m.listItext),
           site := "question.MultipleChoiceQuestion.build_xml" }]) ++
      (if o.items.isEmpty then [] else
-       [{ kind := "search-inline", detail := S "select without search() has inline items: " ++ m.ref, site := "question.MultipleChoiceQuestion.build_xml" }])
-   | some _, none => [{ kind := "nodeset", detail := S "select without itemset: " ++ m.ref, site := "question.MultipleChoiceQuestion.build_xml" }]
-   | none, some _ => [{ kind := "search-inline", detail := S "search() / external select with an itemset: " ++ m.ref, site := "question.MultipleChoiceQuestion.build_xml" }]
+       [{ kind := "search-inline", detail := c!"select without search() has inline items: " ++ m.ref, site := "question.MultipleChoiceQuestion.build_xml" }])
+   | some _, none => [{ kind := "nodeset", detail := c!"select without itemset: " ++ m.ref, site := "question.MultipleChoiceQuestion.build_xml" }]
+   | none, some _ => [{ kind := "search-inline", detail := c!"search() / external select with an itemset: " ++ m.ref, site := "question.MultipleChoiceQuestion.build_xml" }]
    | none, none =>
      (if m.items = o.items then [] else
-       [{ kind := "search-inline", detail := S "inline items of " ++ m.ref ++ S " are not the list's choices", site := "question.MultipleChoiceQuestion.build_xml" }]) ++
+       [{ kind := "search-inline", detail := c!"inline items of " ++ m.ref ++ c!" are not the list's choices", site := "question.MultipleChoiceQuestion.build_xml" }]) ++
      (if m.query = o.query then [] else
-       [{ kind := "query", detail := S "query of " ++ m.ref ++ S " differs", site := "question.InputQuestion.build_xml" }])) ++
+       [{ kind := "query", detail := c!"query of " ++ m.ref ++ c!" differs", site := "question.InputQuestion.build_xml" }])) ++
   (if m.other = o.other then [] else
-    [{ kind := "or-other", detail := S "or_other companion of " ++ m.ref ++ S " missing or wrong", site := "xls2json.workbook_to_json" }])
+    [{ kind := "or-other", detail := c!"or_other companion of " ++ m.ref ++ c!" missing or wrong", site := "xls2json.workbook_to_json" }])
 
 def checkSels : List SelObs → List ObsSel → List Fail
   | [], [] => []
   | m :: ms, o :: os => checkSel m o ++ checkSels ms os
-  | _, _ => [{ kind := "select-count", detail := S "number of select controls differs from the number of select rows" }]
+  | _, _ => [{ kind := "select-count", detail := c!"number of select controls differs from the number of select rows" }]
 
 def checkCsv (inp : Input) (es : List Elem) (obs : ObsIn) : List Fail :=
   let want : Option (List (List Str)) :=
     if hasExternalSelect es then inp.extRows.map fun rows => inp.extHeader :: rows.map (rowByHeader inp.extHeader) else none
   if obs.csv = want then [] else
-    [{ kind := "csv-cells", detail := S "itemsets CSV does not reproduce the external_choices sheet cell for cell",
+    [{ kind := "csv-cells", detail := c!"itemsets CSV does not reproduce the external_choices sheet cell for cell",
        site := "utils.external_choices_to_csv" }]
 
 /-- `none`: the workbook is outside the fragment in which the spec can read the select rows -/
